@@ -79,6 +79,11 @@ func (f *F) Operand(t *rapid.T, label string) (*big.Int, string) {
 	case 10:
 		// a single set bit or a one-limb mask in the INTERNAL representation (a·R for Montgomery types):
 		// what an equality / zero test that looks at only part of the limbs would miss
+		if f.Reduced && rapid.Bool().Draw(t, label+".iedge") {
+			a, c := f.InternalEdge(t, label)
+			v, class = f.FromInternal(a), c
+			break
+		}
 		pats := f.InternalPatterns()
 		v = f.FromInternal(pats[rapid.IntRange(0, len(pats)-1).Draw(t, label+".pat")])
 		class = "internal-bit"
@@ -212,13 +217,129 @@ func (f *F) DrawSecond(t *rapid.T, xv *big.Int, xc string, label string) (*big.I
 	return f.Operand(t, label)
 }
 
+// wordBits is the width of the limb array holding one element.
+func (f *F) wordBits() int { return (f.Bits + 63) / 64 * 64 }
+
+// Gap returns 2^w − P: internal words below it are the ones whose unreduced
+// alias r+P still fits the limb array (a skipped or mis-decided final
+// subtraction is visible only there).
+func (f *F) Gap() *big.Int { return new(big.Int).Sub(Pow2(f.wordBits()), f.P) }
+
+// InternalEdge draws an internal word (reduced) from the structured set
+// {2^k, 2^k−1, P−2^k, P−1−2^k, gap±d, gap−2^k, d < gap, uniform below gap}.
+func (f *F) InternalEdge(t *rapid.T, label string) (*big.Int, string) {
+	w := f.wordBits()
+	gap := f.Gap()
+	k := rapid.IntRange(0, w-1).Draw(t, label+".ik")
+	d := big.NewInt(int64(rapid.IntRange(0, 3).Draw(t, label+".id")))
+	var v *big.Int
+	cls := "internal-edge"
+	switch rapid.IntRange(0, 7).Draw(t, label+".ikind") {
+	case 0:
+		v = Pow2(k)
+	case 1:
+		v = new(big.Int).Sub(Pow2(k), one)
+	case 2:
+		v = new(big.Int).Sub(f.P, Pow2(k))
+	case 3:
+		v = new(big.Int).Sub(f.P, Pow2(k))
+		v.Sub(v, one)
+	case 4:
+		v = new(big.Int).Add(gap, d)
+	case 5:
+		v = new(big.Int).Sub(gap, new(big.Int).Add(d, one))
+		cls = "internal-gap"
+	case 6:
+		v = new(big.Int).Sub(gap, Pow2(k))
+		cls = "internal-gap"
+	default:
+		b := make([]byte, w/8)
+		vlib.FillRandom(t, b, label+".ig")
+		v = new(big.Int).SetBytes(b)
+		v.Mod(v, gap)
+		cls = "internal-gap"
+	}
+	if v.Sign() < 0 {
+		v.Neg(v)
+	}
+	v.Mod(v, f.P)
+	if cls == "internal-gap" && v.Cmp(gap) >= 0 {
+		cls = "internal-edge"
+	}
+	return v, cls
+}
+
+// Targeted draws operands (x, y) of op ∈ {Add, Sub, Mul, Sqr, Neg, Inv} such
+// that the INTERNAL representation of the RESULT is a drawn word — mostly one
+// in the gap [0, 2^w−P). The operands live in the domain of the test: values
+// when f.R is set (internal = value·R), raw Montgomery limbs otherwise.
+// mulScale is the s with Mul(x,y) = x·y/s and Inv(x) = s²/x in that domain
+// (nil or 1 for a value-level API, R for raw limbs).
+func (f *F) Targeted(t *rapid.T, op string, mulScale *big.Int, label string) (x, y *big.Int, class string, ok bool) {
+	p := f.P
+	s := big.NewInt(1)
+	if mulScale != nil {
+		s = Mod(mulScale, p)
+	}
+	ti, cls := f.InternalEdge(t, label+".target")
+	g := *f
+	g.Reduced = true
+	y, _ = g.ValueOrMont(t, label+".ty")
+	inv := func(v *big.Int) *big.Int { return new(big.Int).ModInverse(v, p) }
+	for try := 0; try < 16; try++ {
+		v := f.FromInternal(ti) // target in the operand domain
+		switch op {
+		case "Add":
+			x = Mod(new(big.Int).Sub(v, y), p)
+		case "Sub":
+			x = Mod(new(big.Int).Add(v, y), p)
+		case "Neg":
+			x = Mod(new(big.Int).Neg(v), p)
+		case "Mul":
+			if y.Sign() == 0 {
+				y = big.NewInt(3)
+			}
+			x = new(big.Int).Mul(v, s)
+			x.Mul(x, inv(y)).Mod(x, p)
+		case "Inv":
+			if v.Sign() == 0 {
+				ti = new(big.Int).Add(ti, one)
+				continue
+			}
+			x = new(big.Int).Mul(s, s)
+			x.Mul(x, inv(v)).Mod(x, p)
+		case "Sqr":
+			r := new(big.Int).ModSqrt(Mod(new(big.Int).Mul(v, s), p), p)
+			if r == nil {
+				ti = Mod(new(big.Int).Add(ti, one), p)
+				continue
+			}
+			x = r
+			if rapid.Bool().Draw(t, label+".otherroot") {
+				x = Mod(new(big.Int).Neg(r), p)
+			}
+			y = x
+		default:
+			return nil, nil, "", false
+		}
+		return x, y, "target-" + cls, true
+	}
+	return nil, nil, "", false
+}
+
 // MontOperand draws a value whose Montgomery representation a = v·R mod P is
 // an edge operand: it draws a (reduced) with Operand and returns v = a·R⁻¹.
 // Used for types whose API only takes values but which compute on a·R.
 func (f *F) MontOperand(t *rapid.T, label string) (*big.Int, string) {
 	g := *f
 	g.Reduced = true
-	a, cls := g.Operand(t, label)
+	var a *big.Int
+	var cls string
+	if rapid.IntRange(0, 2).Draw(t, label+".iedge") == 0 {
+		a, cls = f.InternalEdge(t, label)
+	} else {
+		a, cls = g.Operand(t, label)
+	}
 	rinv := new(big.Int).ModInverse(f.R, f.P)
 	v := new(big.Int).Mul(a, rinv)
 	v.Mod(v, f.P)
